@@ -607,6 +607,11 @@ class ForestRuleExtractor:
                     except StrategyDoesNotApply:
                         continue
                 else:
+                    try:
+                        # a rule made by a factory may turn out not to apply
+                        _ = x.children
+                    except StrategyDoesNotApply:
+                        continue
                     yield x
 
 
